@@ -4,11 +4,13 @@
    the one-byte length field), and that the writer's header is one the reader accepts.
    Section level and whole file: what as_bytes writes is read back by from_bytes as the Builder
    pipeline run on the raw facts the file carries (C07_decode_encode_is_rebuild) — the file layer
-   is transparent, for any number of terms and records.  That the rebuilt ontology is
-   observationally equal to the one written (same closure, same propagated annotations, same IC) is
-   composed from the C01 / C02 / C03 / C16 theorems informally and decided per case by the
-   correspondence run and spec_C07; that last composition is not yet one theorem. *)
-From HpoV Require Import Gen.Consts Model.Base Model.Group Model.Onto Model.Binary Proofs.GroupP Proofs.BinaryP Proofs.CodecP Proofs.SectionP.
+   is transparent, for any number of terms and records; and the reload keeps the whole TERM
+   STRUCTURE (ids, names, flags, parents, children, ancestor caches: C07_reload_keeps_terms).
+   That the propagated annotation sets, the records and the information content also come back
+   equal follows informally from the C02 / C03 theorems (both sides are the propagation of the same
+   direct facts) and is decided per case by the correspondence run and spec_C07; that part is not
+   yet one theorem. *)
+From HpoV Require Import Gen.Consts Model.Base Model.Group Model.Onto Model.Binary Proofs.GroupP Proofs.BinaryP Proofs.CodecP Proofs.SectionP Proofs.RoundTripP Model.Script.
 
 Theorem C07_u32_roundtrip : forall n rest, n < 4294967296 -> u32_at (to_be32 n ++ rest) 0 = Ok n.
 Proof. exact u32_at_to_be32. Qed.
@@ -79,6 +81,19 @@ Theorem C07_decode_encode_is_rebuild : forall icf order o, file_ok order o ->
   decode icf (encode_with order o) = rebuild icf order o.
 Proof. exact decode_encode_is_rebuild. Qed.
 
+(* ---- what the reload keeps: the whole term structure ----
+   for every ontology with exact caches and children = parents^-1 (every Builder-built one:
+   C07_builder_ontologies_are_sources) that the format can carry (file_ok), in whatever order the
+   records are written: every term comes back at the same position with the same id, name (cut at
+   the format's limit), obsolete flag, replacement, direct parents, children and ancestor cache *)
+Theorem C07_reload_keeps_terms : forall icf order o o'', file_ok order o -> src_ok o ->
+  decode icf (encode_with order o) = Ok o'' ->
+  Forall2 term_kept (ar_terms (o_arena o)) (ar_terms (o_arena o'')).
+Proof. exact reload_keeps_terms. Qed.
+
+Theorem C07_builder_ontologies_are_sources : forall icf s codes o, run_script icf s = Ok (codes, Ok o) -> src_ok o.
+Proof. exact run_script_src_ok. Qed.
+
 Print Assumptions C07_u32_roundtrip.
 Print Assumptions C07_name_cut_bounds.
 Print Assumptions C07_name_cut_identity.
@@ -93,3 +108,5 @@ Print Assumptions C07_term_section.
 Print Assumptions C07_parent_section.
 Print Assumptions C07_record_section.
 Print Assumptions C07_decode_encode_is_rebuild.
+Print Assumptions C07_reload_keeps_terms.
+Print Assumptions C07_builder_ontologies_are_sources.
